@@ -331,8 +331,12 @@ pub fn ck_rowop(cap: usize, which: u8, pat: [u8; 3]) {
 }
 /// every liveness pattern of a table of capacity `cap`
 pub fn ck_rowop_all(cap: usize, which: u8) {
-    let mut p0 = 0u8;
-    while p0 < 3 {
+    ck_rowop_from(cap, which, 0, 3)
+}
+/// the liveness patterns whose first cell is one of `lo..hi`
+pub fn ck_rowop_from(cap: usize, which: u8, lo: u8, hi: u8) {
+    let mut p0 = lo;
+    while p0 < hi {
         let mut p1 = 0u8;
         while p1 < 3 {
             if cap == 2 {
@@ -381,7 +385,7 @@ fn h_get_2() {
 fn h_get_3() {
     ck_get(3);
 }
-//@ id=C16.e3.map.insert_impl.cap2 props=C16,C05,C09 level=bounded tier=quick budget=1500 bound="capacity 2" desc="insert: replaces the index of a present key (reporting the old one) or claims exactly one free cell reachable from the key's start slot, len incremented; Err only when the table is full of other keys"
+//@ id=C16.e3.map.insert_impl.cap2 props=C16,C09 level=bounded tier=quick budget=1500 bound="capacity 2" desc="insert: replaces the index of a present key (reporting the old one) or claims exactly one free cell reachable from the key's start slot, len incremented; Err only when the table is full of other keys"
 #[kani::proof]
 #[kani::unwind(4)]
 fn h_insert_2() {
@@ -399,11 +403,23 @@ fn h_insert_3() {
 fn h_set_tombstones_3() {
     ck_set_tombstones(3);
 }
-//@ id=C16.e3.map.drop.cap2 props=C16,C09 level=bounded tier=quick budget=900 bound="capacity 2, every liveness pattern (live / tombstone / empty per cell), live keys fixed distinct numbers, row numbers / start slots / argument symbolic" desc="drop(n): the keys of the first min(n, len) rows become tombstones, the others keep their cell and are renumbered by -n; free cells stay as they were; representation and numbering invariants preserved"
+//@ id=C16.e3.map.drop.cap2.first_live props=C16,C09 level=bounded tier=quick budget=900 bound="capacity 2, first cell live, every liveness pattern of the other (live / tombstone / empty per cell), live keys fixed distinct numbers, row numbers / start slots / argument symbolic" desc="drop(n): the keys of the first min(n, len) rows become tombstones, the others keep their cell and are renumbered by -n; free cells stay as they were; representation and numbering invariants preserved"
 #[kani::proof]
 #[kani::unwind(6)]
-fn h_drop_2() {
-    ck_rowop_all(2, 0);
+fn h_drop_2_live() {
+    ck_rowop_from(2, 0, 0, 1);
+}
+//@ id=C16.e3.map.drop.cap2.first_tombstone props=C16,C09 level=bounded tier=quick budget=900 bound="capacity 2, first cell tombstone, every liveness pattern of the other (live / tombstone / empty per cell), live keys fixed distinct numbers, row numbers / start slots / argument symbolic" desc="drop(n): the keys of the first min(n, len) rows become tombstones, the others keep their cell and are renumbered by -n; free cells stay as they were; representation and numbering invariants preserved"
+#[kani::proof]
+#[kani::unwind(6)]
+fn h_drop_2_tombstone() {
+    ck_rowop_from(2, 0, 1, 2);
+}
+//@ id=C16.e3.map.drop.cap2.first_empty props=C16,C09 level=bounded tier=quick budget=900 bound="capacity 2, first cell empty, every liveness pattern of the other (live / tombstone / empty per cell), live keys fixed distinct numbers, row numbers / start slots / argument symbolic" desc="drop(n): the keys of the first min(n, len) rows become tombstones, the others keep their cell and are renumbered by -n; free cells stay as they were; representation and numbering invariants preserved"
+#[kani::proof]
+#[kani::unwind(6)]
+fn h_drop_2_empty() {
+    ck_rowop_from(2, 0, 2, 3);
 }
 //@ id=C16.e3.map.drop.cap3 props=C16,C09 level=bounded tier=thorough budget=3000 bound="capacity 3, every liveness pattern (live / tombstone / empty per cell), live keys fixed distinct numbers, row numbers / start slots / argument symbolic" desc="drop(n): the keys of the first min(n, len) rows become tombstones, the others keep their cell and are renumbered by -n; free cells stay as they were; representation and numbering invariants preserved"
 #[kani::proof]
@@ -411,11 +427,23 @@ fn h_drop_2() {
 fn h_drop_3() {
     ck_rowop_all(3, 0);
 }
-//@ id=C16.e3.map.take.cap2 props=C16,C09 level=bounded tier=quick budget=900 bound="capacity 2, every liveness pattern (live / tombstone / empty per cell), live keys fixed distinct numbers, row numbers / start slots / argument symbolic" desc="take(n): the keys of the rows from min(n, len) on become tombstones, the others are untouched; free cells stay as they were; representation and numbering invariants preserved"
+//@ id=C16.e3.map.take.cap2.first_live props=C16,C09 level=bounded tier=quick budget=900 bound="capacity 2, first cell live, every liveness pattern of the other (live / tombstone / empty per cell), live keys fixed distinct numbers, row numbers / start slots / argument symbolic" desc="take(n): the keys of the rows from min(n, len) on become tombstones, the others are untouched; free cells stay as they were; representation and numbering invariants preserved"
 #[kani::proof]
 #[kani::unwind(6)]
-fn h_take_2() {
-    ck_rowop_all(2, 1);
+fn h_take_2_live() {
+    ck_rowop_from(2, 1, 0, 1);
+}
+//@ id=C16.e3.map.take.cap2.first_tombstone props=C16,C09 level=bounded tier=quick budget=900 bound="capacity 2, first cell tombstone, every liveness pattern of the other (live / tombstone / empty per cell), live keys fixed distinct numbers, row numbers / start slots / argument symbolic" desc="take(n): the keys of the rows from min(n, len) on become tombstones, the others are untouched; free cells stay as they were; representation and numbering invariants preserved"
+#[kani::proof]
+#[kani::unwind(6)]
+fn h_take_2_tombstone() {
+    ck_rowop_from(2, 1, 1, 2);
+}
+//@ id=C16.e3.map.take.cap2.first_empty props=C16,C09 level=bounded tier=quick budget=900 bound="capacity 2, first cell empty, every liveness pattern of the other (live / tombstone / empty per cell), live keys fixed distinct numbers, row numbers / start slots / argument symbolic" desc="take(n): the keys of the rows from min(n, len) on become tombstones, the others are untouched; free cells stay as they were; representation and numbering invariants preserved"
+#[kani::proof]
+#[kani::unwind(6)]
+fn h_take_2_empty() {
+    ck_rowop_from(2, 1, 2, 3);
 }
 //@ id=C16.e3.map.take.cap3 props=C16,C09 level=bounded tier=thorough budget=3000 bound="capacity 3, every liveness pattern (live / tombstone / empty per cell), live keys fixed distinct numbers, row numbers / start slots / argument symbolic" desc="take(n): the keys of the rows from min(n, len) on become tombstones, the others are untouched; free cells stay as they were; representation and numbering invariants preserved"
 #[kani::proof]
